@@ -22,6 +22,7 @@ import sys, os
 sys.path.insert(0, "lib"); sys.path.insert(0, ".")
 import vf, importlib, glob, traceback
 failed = []
+msgs = []
 for f in sorted(glob.glob("checks/C*.py")):
     pid = os.path.basename(f)[:-3]
     try:
@@ -32,11 +33,17 @@ for f in sorted(glob.glob("checks/C*.py")):
             mod.build(ctx)
     except Exception as e:           # the check itself will report what is wrong when it runs
         failed.append(pid)
+        msgs.append(str(e))
         print(f"[setup] warning: build of {pid} failed: {str(e)[-600:]}", flush=True)
 if failed:
-    # one more attempt after a clean rebuild of the extraction caches (stale .vo / driver)
+    # one more attempt after a clean rebuild of the extraction caches (stale .vo / driver); when compiled
+    # files turned out to be mutually inconsistent the whole Rocq development is rebuilt from clean first
     import shutil, subprocess
     shutil.rmtree(os.path.join(".cache", "ocaml"), ignore_errors=True)
+    if any("inconsistent assumptions" in m for m in msgs):
+        print("[setup] inconsistent .vo files: rebuilding the Rocq development from clean", flush=True)
+        subprocess.run("find coq -name '*.vo' -o -name '*.vok' -o -name '*.vos' -o -name '*.glob' | xargs rm -f", shell=True)
+        subprocess.run("cd coq && timeout 3000 make -j16 -k > ../.cache/setup-coq.log 2>&1", shell=True)
     for pid in failed:
         try:
             mod = importlib.import_module("checks." + pid)
